@@ -137,4 +137,51 @@ def zeroExcused (t : Ty) : Bool :=
   | .int | .uint | .float | .dur | .ptrfloat | .ptrint => true
   | _ => false
 
+/-! ## the remote `source` setting of a full configuration (config.Manager)
+
+A configuration that declares `"source": url` is a well-formed configuration the loader accepts (when the
+remote body is a valid plain configuration).  "Reproduced exactly by saving and loading it again, no setting
+silently dropped" then means: what the Manager saves after accepting it is exactly `{"source": url}`, and
+loading that gives the same effective configuration with the same source.  For a plain configuration it means
+the full configuration is saved, without a `source`.  Observations are printed by `harness/c15` suite `src`. -/
+namespace Src
+
+structure Obs where
+  ops : List String        -- P<k> Pf<k> I G N S:<rid> Sf:<rid> H:<rid> D, performed in order on one Manager
+  res : List String        -- ok | err | panic, one per operation
+  src : String             -- Manager.Source afterwards (remote id, "-" = empty)
+  eff : String             -- configuration the sections hold (number), "invalid" when Validate fails
+  saved : String           -- err | panic | source:<rid> | mixed:<rid> | full:<k>
+  rres : String            -- loading the saved bytes with a fresh Manager
+  reff : String
+  rsrc : String
+  deriving Repr
+
+/-- for an accepted load: what must be saved, and the source a reload must show -/
+def expected (op : String) : Option (String × String) :=
+  if op.startsWith "Pf" then some ("full:" ++ (op.drop 2).toString, "-")
+  else if op.startsWith "P" then some ("full:" ++ (op.drop 1).toString, "-")
+  else if op.startsWith "Sf:" then some ("source:" ++ (op.drop 3).toString, (op.drop 3).toString)
+  else if op.startsWith "S:" then some ("source:" ++ (op.drop 2).toString, (op.drop 2).toString)
+  else if op.startsWith "H:" then some ("source:" ++ (op.drop 2).toString, (op.drop 2).toString)
+  else none
+
+def clauses (o : Obs) : List (String × Bool) :=
+  let accepted := o.res.getLast? == some "ok"
+  let exp := (o.ops.getLast?).bind expected
+  [ ("no_crash", !(o.res.contains "panic") && o.saved != "panic" && o.rres != "panic"),
+    ("accepted_valid", !accepted || o.eff != "invalid"),
+    -- the configuration just accepted is what gets saved (nothing dropped, nothing substituted)
+    ("saved_is_loaded", !accepted || (match exp with
+        | some (sv, _) => o.saved == sv
+        | none => o.saved != "err")),
+    -- and loading the saved form gives the same effective configuration and the same source
+    ("reload_same", !accepted || (match exp with
+        | some (_, rs) => o.rres == "ok" && o.reff == o.eff && o.rsrc == rs
+        | none => o.rres == "ok" && o.reff == o.eff)) ]
+
+def holds (o : Obs) : Bool := (clauses o).all (·.2)
+
+end Src
+
 end CV.C15
